@@ -737,15 +737,26 @@ def main(tier):
                 print(f"HARNESS-ERROR value {v!r} of dimension {dim} is not enumerated in tier {tier}")
                 return 2
     group = 20
-    tasks = [{"cfgs": cfgs[i:i + group]} for i in range(0, len(cfgs), group)]
+    tasks = [{"cfgs": cfgs[i:i + group], "_timeout": 600} for i in range(0, len(cfgs), group)]
     engine.start(run_task)
     results = engine.pmap(tasks)
-    engine.stop()
     timeouts = engine.check_results(results, run)
+    if timeouts:
+        # a group that ran out of time (loaded machine) is re-run model by model; only a single model that does not
+        # terminate is reported
+        keep = [(t, r) for t, r in zip(tasks, results) if not r.get("_timeout")]
+        singles = [{"cfgs": [c], "_timeout": 300} for t, r in zip(tasks, results) if r.get("_timeout") for c in t["cfgs"]]
+        run.count("groups_rerun_after_timeout", len(timeouts))
+        res2 = engine.pmap(singles)
+        timeouts = engine.check_results(res2, run)
+        tasks = [t for t, _ in keep] + singles
+        results = [r for _, r in keep] + res2
+    engine.stop()
     outcomes, digests, samples = {}, set(), []
     for t, r in zip(tasks, results):
         if r.get("_timeout"):
-            run.violation({"clause": "timeout"}, {"task": t, "detail": "build did not terminate", "size": 10 ** 6})
+            run.violation({"clause": "timeout"}, {"task": {"cfgs": t["cfgs"]}, "detail": "build did not terminate",
+                                                  "size": 10 ** 6})
             continue
         for oc in r["outcomes"]:
             outcomes[oc] = outcomes.get(oc, 0) + 1
